@@ -8,7 +8,10 @@
 
 package py
 
-import "bytes"
+import (
+	"bytes"
+	"reflect"
+)
 
 var SetType = NewTypeX("set", "set() -> new empty set object\nset(iterable) -> new set object\n\nBuild an unordered collection of unique elements.", SetNew, nil)
 
@@ -37,6 +40,19 @@ func NewSetWithCapacity(n int) *Set {
 	}
 }
 
+// Unhashable returns a TypeError if one of the items cannot be a member
+// of a set.  A set is a Go map keyed by the Go value of its members, and
+// Go cannot hash slices and maps (tuple, bytes, dict): using one as a
+// key panics.  Callers check before NewSetFromItems, Add and Update.
+func Unhashable(items ...Object) error {
+	for _, item := range items {
+		if item != nil && !reflect.TypeOf(item).Comparable() {
+			return ExceptionNewf(TypeError, "unhashable type: '%s'", item.Type().Name)
+		}
+	}
+	return nil
+}
+
 // Make a new set with the items passed in
 func NewSetFromItems(items []Object) *Set {
 	s := NewSetWithCapacity(len(items))
@@ -51,6 +67,9 @@ func init() {
 		setSelf := self.(*Set)
 		if len(args) != 1 {
 			return nil, ExceptionNewf(TypeError, "append() takes exactly one argument (%d given)", len(args))
+		}
+		if err := Unhashable(args[0]); err != nil {
+			return nil, err
 		}
 		setSelf.Add(args[0])
 		return NoneType{}, nil
@@ -78,6 +97,9 @@ func init() {
 		if err != nil {
 			return nil, err
 		}
+		if err := Unhashable(item); err != nil {
+			return nil, err
+		}
 		delete(setSelf.items, item)
 		return NoneType{}, nil
 	}, 0, "discard(value) -- remove an element from a set if it is a member")
@@ -87,6 +109,9 @@ func init() {
 		var item Object
 		err := UnpackTuple(args, nil, "remove", 1, 1, &item)
 		if err != nil {
+			return nil, err
+		}
+		if err := Unhashable(item); err != nil {
 			return nil, err
 		}
 		if _, ok := setSelf.items[item]; !ok {
